@@ -593,6 +593,9 @@ func (c *Ctx) checkReplay() {
 					}
 				}
 			}
+			if !okArg {
+				okArg = seedThroughHelper(cc.Args[0], s.fn)
+			}
 			L.Check(okArg && nSeed == 1, "single-stream", name, "rand.Seed", pos, "single seeding site, argument is the --seed variable", "the stream is re-seeded or seeded from something other than --seed")
 		case strings.HasPrefix(s.what, "rand.New"), strings.HasPrefix(s.what, "crypto/rand"), strings.HasPrefix(s.what, "x/exp/rand"):
 			L.Bad("single-stream", name, s.what, pos, "a second random source: its draws do not replay from --seed")
